@@ -483,7 +483,9 @@ class LocateHistories:
             # an almost affine geometry whose fit error is close to the tolerance is a recorded defect of its own (known_locate_fit):
             # keep the curved geometries far away from that zone (fit error >= 3e-5 for the element sizes and curvatures used here)
             curved = kind == 'nonlin' and args['a' + tag] != 0
-            tol = rng.choice([1e-10, 1e-6] if curved else [1e-10, 1e-6, 1e-3])
+            tol = rng.choice([1e-10, 1e-6, 1e-3])
+            if curved and tol == 1e-3:
+                tol = 1e-6; self.c.count('lochist:steered-away-from-fit-margin')
             kwkind = rng.random()
             kw = dict(tol=tol) if kwkind < .6 else dict(eps=tol) if kwkind < .85 else dict(tol=tol, eps=rng.choice([1e-10, 1e-6]))
             skip = rng.random() < .25
